@@ -2,7 +2,7 @@
 use crate::checks::c04::docs;
 use crate::harness::*;
 use crate::univ;
-use refmodel::layout::hex;
+use refmodel::layout::{enc, hex};
 use refmodel::ops::ref_contains;
 use refmodel::RVal;
 use serde_json::json;
@@ -42,6 +42,46 @@ pub fn spaces(tier: Tier) -> Vec<Space<'static>> {
         }
         acc.sample(|| json!({"a": format!("{:?}", d.vals[i]), "b": format!("{:?}", d.vals[(i * 7 + 3) % n])}));
     }));
+    // text operands in the other spellings (all \\uXXXX, short escapes incl. \\/, CRLF/TAB between
+    // tokens) for the special-character-key family, and texts that repeat a member name
+    {
+        let fam: std::sync::Arc<Vec<RVal>> = std::sync::Arc::new(refmodel::gen::strkey_docs().into_iter().step_by(if tier.thorough() { 2 } else { 5 }).chain(univ::d2().iter().step_by(40).cloned()).collect());
+        let m = fam.len();
+        sp.push(Space::new("text operands in three other spellings (special-character keys)", m as u64, move |i, acc| {
+            let a = &fam[i as usize];
+            let ab = enc(a);
+            for b in fam.iter() {
+                let exp = ref_contains(a, b);
+                let bb = enc(b);
+                for style in [1u8, 2, 3] {
+                    let (ta, tb) = (refmodel::text::print_styled(a, style), refmodel::text::print_styled(b, style));
+                    for (cfg, x, y) in [("text,text", ta.as_bytes(), tb.as_bytes()), ("text,binary", ta.as_bytes(), &bb[..]), ("binary,text", &ab[..], tb.as_bytes())] {
+                        acc.eval();
+                        match guard(|| jsonb::contains(x, y)) {
+                            Ok(o) if o == exp => {}
+                            other => acc.vio("contains-text:other-spelling:differs-from-rules", || json!({"cfg": cfg, "style": style, "a": ta, "b": tb, "expected": exp, "observed": format!("{:?}", other.map_err(|p| panic_class(&p)))})),
+                        }
+                    }
+                }
+            }
+        }));
+        let raw: Vec<&str> = vec!["{\"a\":1,\"a\":2}", "{\"a\":2,\"a\":1}", "{\"a\":2}", "{\"a\":1}", "{\"a\":7,\"a\":2,\"b\":true}", "{\"a\":2,\"b\":true}", "[{\"a\":1,\"a\":2}]", "[{\"a\":2}]", "{\"a\":{\"k\":1,\"k\":[]}}", "{\"a\":{\"k\":[]}}", "{\"a\":{\"k\":1}}"];
+        let items: std::sync::Arc<Vec<(String, RVal, Vec<u8>)>> = std::sync::Arc::new(raw.into_iter().map(|s| { let v = refmodel::text::relaxed_json(s.as_bytes()).expect("model parses").val; let b = enc(&v); (s.to_string(), v, b) }).collect());
+        sp.push(Space::new("text operands with repeated member names", items.len() as u64, move |i, acc| {
+            let (si, vi, bi) = &items[i as usize];
+            for (sj, vj, bj) in items.iter() {
+                let exp = ref_contains(vi, vj);
+                for (cfg, x, y) in [("text,text", si.as_bytes(), sj.as_bytes()), ("text,binary", si.as_bytes(), &bj[..]), ("binary,text", &bi[..], sj.as_bytes())] {
+                    acc.eval();
+                    acc.nontrivial += 1;
+                    match guard(|| jsonb::contains(x, y)) {
+                        Ok(o) if o == exp => {}
+                        other => acc.vio("contains-text:repeated-member-names:differs-from-rules", || json!({"cfg": cfg, "a": si, "b": sj, "expected": exp, "observed": format!("{:?}", other.map_err(|p| panic_class(&p)))})),
+                    }
+                }
+            }
+        }));
+    }
     // the tree implementation (reached when an argument is JSON text) against the same rules
     let fin: std::sync::Arc<Vec<usize>> = std::sync::Arc::new((0..n).filter(|i| d.texts[*i].is_some()).step_by(if tier.thorough() { 1 } else { 2 }).collect());
     let (d3, f1) = (d.clone(), fin.clone());
